@@ -168,6 +168,13 @@ class _Loader(importlib.abc.Loader):
     def create_module(self, spec):
         return None
 
+    def get_resource_reader(self, fullname):
+        if not self.is_pkg:
+            return None
+        from importlib.resources.readers import FileReader
+
+        return FileReader(self)
+
     def exec_module(self, module):
         with open(self.path, "r", encoding="utf-8") as fh:
             src = fh.read()
